@@ -353,12 +353,36 @@ def path_condition(mod, stmt, root):
     while p is not None and p is not root:
         if isinstance(p, ast.If):
             if any(child is s for s in p.body):
-                conds.append((p.test, True))
+                conds.append(_positive(p.test, True))
             elif any(child is s for s in p.orelse):
-                conds.append((p.test, False))
+                conds.append(_positive(p.test, False))
+        elif isinstance(p, ast.IfExp):
+            if child is p.body:
+                conds.append(_positive(p.test, True))
+            elif child is p.orelse:
+                conds.append(_positive(p.test, False))
         child = p
         p = mod.parent.get(p)
     return conds
+
+
+def cond_set(conds, name):
+    """Do the path conditions say that variable `name` is set (truthy / not None)?"""
+    return any((norm(t) == name and pol) or (norm(t) == f"{name} is None" and not pol) for t, pol in conds)
+
+
+_NEG = {ast.IsNot: ast.Is, ast.NotEq: ast.Eq, ast.NotIn: ast.In}
+
+
+def _positive(test, pol):
+    """Normalise a guard to positive form: strip `not`, turn `is not`/`!=`/`not in` into their positive operator,
+    flipping the polarity, so `if not c: A else: B` and `if c: B else: A` give the same condition."""
+    while isinstance(test, ast.UnaryOp) and isinstance(test.op, ast.Not):
+        test, pol = test.operand, not pol
+    if isinstance(test, ast.Compare) and len(test.ops) == 1 and type(test.ops[0]) in _NEG:
+        test = ast.Compare(left=test.left, ops=[_NEG[type(test.ops[0])]()], comparators=test.comparators)
+        pol = not pol
+    return (test, pol)
 
 
 def rule_counting_agreement(ctx, rid, r, rid_initial=None):
@@ -447,8 +471,10 @@ def rule_counting_agreement(ctx, rid, r, rid_initial=None):
            if not has_filter else "continue/break in the classification loop can leave a node unclassified")
     # membership test in the callback uses the single-parent set; others go to the counter
     single_name = r.prep_names.get(r.single_index)
-    tests = [n for n in succ_loop.body if isinstance(n, ast.If)]
-    ok = len(tests) == 1 and norm(tests[0].test) == f"{norm(succ_loop.target)} in {single_name}"
+    member = f"{norm(succ_loop.target)} in {single_name}"
+    direct_puts = [c for c in put_sites(m, r.nodecb, r) if inside(r.nodecb.module, c, succ_loop) and not any(inside(r.nodecb.module, c, w) for w, _ in lock_withs(m, r.nodecb))]
+    ok = len(direct_puts) == 1 and any(norm(t) == member and pol for t, pol in path_condition(r.nodecb.module, stmt_of(r.nodecb.module, direct_puts[0]), succ_loop)) \
+        and all(any(norm(t) == member and not pol for t, pol in path_condition(r.nodecb.module, d, succ_loop)) for d in r.decs)
     ctx.ob(rid, f"{r.nodecb.short}/single-parent-dispatch", ok, loc(r.nodecb, succ_loop),
            "successors in the single-parent set are enqueued directly, all others go through the counter" if ok else
            "successor dispatch is not `if successor in <single-parent set> ... else <counter>`", head(succ_loop))
@@ -832,7 +858,7 @@ def rule_first_error(ctx, rid, r):
     # engine raises the cell after the pool, on every path to the normal exit
     rs = r.raise_stmt
     conds = path_condition(e.module, rs, e.node)
-    ok = len(conds) == 1 and norm(conds[0][0]) in (r.firsterr, f"{r.firsterr} is not None") and conds[0][1]
+    ok = len(conds) == 1 and cond_set(conds, r.firsterr)
     ctx.ob(rid, f"{e.short}/raise-recorded", ok, loc(e, rs), "engine raises the recorded error when set" if ok else
            "raise of the recorded error is guarded by something else than the cell itself", norm(rs))
     top = e.node.body
